@@ -770,6 +770,9 @@ func c11templates() [][2]string {
 	add("\tp, q := 5, 6\n\ta := []int{1, 2, 3}\n\tcopy(a, a[1:])\n\tn := copy(a, a[2:])\n\tfor i := 0; i < 2; i++ {\n\t\tn += copy(a[i:], a)\n\t\tcopy(a, a)\n\t}\n\tfmt.Println(p, q, n, a)\n", "5 6 6 [3 3 3]\n")
 	add("\ta := make([]int8, 1)\n\ta[0] = 127\n\ta[0]++\n\ta = append(a, -128)\n\ta[1]--\n\tfmt.Println(a[0], a[1])\n", "-128 127\n")
 	add("\ta := []uint32{4000000000}\n\ta = append(a, 4294967295)\n\ta[1]++\n\tfmt.Println(a[0], a[1])\n", "4000000000 0\n")
+	// constants stored by tuple assignments, conversions of nil, computed bounds of exactly -1
+	add("\tg := make([]float64, 2)\n\th := make([]float64, 2)\n\tg[0], h[1] = 1, 3\n\tb := make([]byte, 2)\n\tb[0], b[1] = 200, 100\n\tb[0] += b[1]\n\tvar i8 []int8 = make([]int8, 2)\n\ti8[1], i8[0] = 127, 1\n\ti8[1] += i8[0]\n\tfmt.Println(g[0]/2, h[1]/2, b[0], i8[1])\n", "0.5 1.5 44 -128\n")
+	add("\tk := append([]float64(nil), 1)\n\tb := append([]byte(nil), 200)\n\tb[0] += 100\n\tvar d []float64 = nil\n\td = append(d, 1)\n\te := []float64(nil)\n\te = append(e, 1, 2)\n\te[1] = 3\n\tfmt.Println(k[0]/2, b[0], d[0]/2, e[1]/2, len([]int(nil)), []string(nil) == nil)\n", "0.5 44 0.5 1.5 0 true\n")
 	return out
 }
 
